@@ -73,17 +73,17 @@ func runC13(c *eng.Ctx) {
 		c.Touch(f)
 		info := f.Pkg.TypesInfo
 		g := p.GraphOf(f)
-		var loop *ast.RangeStmt
+		var el *eng.ElemLoop
 		for _, call := range callsIn(info, f.Decl.Body, isObj(validate)) {
-			loop, _ = eng.LoopOf(f.Decl.Body, call.Pos()).(*ast.RangeStmt)
+			el = elemLoopAt(info, f.Decl.Body, call.Pos())
 		}
-		if loop == nil || loop.Value == nil {
+		if el == nil {
 			r1.Bad(f.Key+" validates-each", f.Decl.Pos(), "documents are not validated in a loop over the decoded specs")
 		} else {
-			elem := eng.SelObj(info, loop.Value)
+			loop := el.Stmt
 			isValidate := func(n *eng.GNode) bool {
 				return len(g.CallsAt(n, func(o types.Object, call *ast.CallExpr) bool {
-					return o == validate && len(call.Args) >= 1 && eng.SelObj(info, call.Args[0]) == elem
+					return o == validate && len(call.Args) >= 1 && el.IsElem(call.Args[0])
 				})) > 0
 			}
 			r1.Check(loopBodyMustPass(g, loop, isValidate), f.Key+" validates-each", loop.Pos(), "every decoded document passes ValidateOperationSpec", "a decoded document can be skipped without validation (e.g. when its `operation` is empty): a misspelled document is silently dropped and the rest of the file is applied")
@@ -112,10 +112,7 @@ func runC13(c *eng.Ctx) {
 							x, y, eq, isEq := eng.EqAtom(fc)
 							return isEq && !eq && eng.SelObj(info, x) == ev && eng.IsNil(info, y)
 						}
-						isHead := func(m *eng.GNode) bool {
-							return m.Node == nil && m.Block.Stmt == ast.Stmt(loop) && m.Block.Kind.String() == "RangeLoop"
-						}
-						reach := g.Reach(eng.Query{From: []*eng.GNode{vnode}, AvoidEdge: g.Infeasible(assumed), AvoidNode: isHead})
+						reach := g.Reach(eng.Query{From: []*eng.GNode{vnode}, AvoidEdge: g.Infeasible(assumed), AvoidNode: isLoopHeadOf(loop)})
 						if reach[n] {
 							okConv = false
 						}
@@ -127,7 +124,7 @@ func runC13(c *eng.Ctx) {
 			retOK := false
 			var acc types.Object
 			for _, n := range g.Nodes {
-				if as, ok := n.Node.(*ast.AssignStmt); ok && len(as.Rhs) == 1 && isCallNamed(info, as.Rhs[0], "Append") && eng.LoopOf(f.Decl.Body, as.Pos()) == ast.Stmt(loop) {
+				if as, ok := n.Node.(*ast.AssignStmt); ok && len(as.Rhs) == 1 && isCallNamed(info, as.Rhs[0], "Append") && eng.LoopOf(f.Decl.Body, as.Pos()) == loop {
 					acc = eng.SelObj(info, as.Lhs[0])
 				}
 			}
@@ -146,7 +143,7 @@ func runC13(c *eng.Ctx) {
 			r1.Check(retOK, f.Key+" validation-errors-returned", f.Decl.Pos(), "the accumulated validation errors are returned", "ParseOperations can return a nil error although a document failed validation")
 			// ascending conversion
 			r2p := c.Rule("C13.R2", "B:order", "stream order: fresh decode target per document, one append per decoded document in both decoders, ascending conversion, one ExecuteOperation per element in ascending order with aggregated errors", 6)
-			r2p.Check(eng.IsAscendingLoop(info, loop), f.Key+" ascending-conversion", loop.Pos(), "ascending range over the decoded specs", "operations are not converted in document order")
+			r2p.Check(!el.Desc, f.Key+" ascending-conversion", loop.Pos(), "ascending range over the decoded specs", "operations are not converted in document order")
 			runC13R2(c, r2p)
 		}
 	} else {
@@ -365,21 +362,25 @@ func runC13R2(c *eng.Ctx, r *eng.RuleCtx) {
 		info := f.Pkg.TypesInfo
 		g := p.GraphOf(f)
 		prm := f.Obj.Type().(*types.Signature).Params().At(0)
-		loop := firstRange(f.Decl.Body)
 		ok := false
-		if loop != nil && loop.Value != nil && eng.SelObj(info, loop.X) == prm && eng.IsAscendingLoop(info, loop) {
-			elem := eng.SelObj(info, loop.Value)
-			calls := callsIn(info, loop.Body, func(o types.Object, call *ast.CallExpr) bool {
-				return o != nil && o.Name() == "ExecuteOperation" && len(call.Args) == 1 && eng.SelObj(info, call.Args[0]) == elem
+		for _, el := range elemLoopsOver(info, f.Decl.Body, func(x ast.Expr) bool { return eng.SelObj(info, x) == prm }) {
+			if el.Desc {
+				continue
+			}
+			calls := callsIn(info, el.Body, func(o types.Object, call *ast.CallExpr) bool {
+				return o != nil && o.Name() == "ExecuteOperation" && len(call.Args) == 1 && el.IsElem(call.Args[0])
 			})
 			if len(calls) == 1 {
 				n := g.NodeOf(calls[0])
 				accum := func(m *eng.GNode) bool {
+					if len(g.CallsAt(m, func(o types.Object, _ *ast.CallExpr) bool { return o != nil && o.Name() == "Append" })) == 0 {
+						return false
+					}
 					as, isA := m.Node.(*ast.AssignStmt)
 					return isA && len(as.Rhs) == 1 && isCallNamed(info, as.Rhs[0], "Append")
 				}
 				v := errHandled(g, calls[0], accum)
-				ok = loopNoEarlyExit(g, loop) && loopBodyMustPass(g, loop, func(m *eng.GNode) bool { return m == n }) && v.OK
+				ok = loopNoEarlyExit(g, el.Stmt) && loopBodyMustPass(g, el.Stmt, func(m *eng.GNode) bool { return m == n }) && v.OK
 			}
 		}
 		// aggregated errors returned
